@@ -1,5 +1,6 @@
 SPECIFICATION GSpec
 CONSTANTS
+  Starts <- StartsBase
   Dev <- DevWal
   MaxRuns = 2
   FlowDef <- FlowsLib
